@@ -11,7 +11,7 @@ PROP = {
             "(empty, inside one token / comment / long string, exactly one statement, a statement and a half, a syntax node or strictly inside it, whole file, "
             "reaching or lying beyond the end, whole lines, random byte pair; always on char boundaries) x LuaFormatConfig; "
             "distinct = FNV of (text, config, selection); non-trivial = a result was produced, spliced and >= 8 code tokens compared",
-    "min_nontrivial": {"quick": 20000, "thorough": 600000},
+    "min_nontrivial": {"quick": 6000, "thorough": 150000},
     "max_secs": {"quick": 60, "thorough": 1000},
     "require_clauses": ["d:no-result-on-errors", "r:range-valid", "a:covers-selection", "b:splice-preserves", "changed-by-formatting",
                         "target:lines", "target:explicit:table", "target:explicit:call-args", "target:explicit:params",
